@@ -67,7 +67,8 @@ def _shape(url, res, out):
         out.append(("C06/shape/userinfo", "fingerprint_url(%r)=%r carries userinfo" % (url, res)))
     if r["port"] is not None:
         out.append(("C06/shape/port", "fingerprint_url(%r)=%r carries a port" % (url, res)))
-    if res != res.lower():
+    bare = "".join(t for kind, t in urlref.lex(res) if kind != "esc")   # hex digits of kept escapes are upper-case by canonical spelling
+    if bare != bare.lower():
         out.append(("C06/shape/case", "fingerprint_url(%r)=%r is not lower-cased" % (url, res)))
 
 
